@@ -113,7 +113,11 @@ def gen(rng, tier):
         elif v == "badMapLine":
             # any line of the map may be the malformed one – also one lying beyond the end of a requested region
             case["bad_map_line"] = [rng.choice(case["chroms"]), rng.choice([3, 5]), rng.choice([0, 2, 3, 5])]
-            if rng.random() < 0.5:
+            if t % 2 == 0:
+                # every other such case: the malformed line is the last line of a map that lacks its final newline
+                case["bad_map_line"][1:] = [3 if t % 4 == 0 else 5, 5]
+                case["map_cut_newline"] = True
+            elif rng.random() < 0.5:
                 c = case["bad_map_line"][0]
                 case["region"] = {"chr": c, "start": rng.choice([100, 150]), "end": rng.choice([150, 250])}
                 case["chroms"] = [c]
@@ -177,7 +181,7 @@ def materialise(case):
                 fields = fields[:3] if case["bad_map_line"][1] == 3 else fields + ["extra"]
             txt += " ".join(fields) + "\n"
         with open(md / f"genetic_map_chr{c}.map", "w") as f:
-            f.write(C.text_ending(case, "map" + c, txt))
+            f.write(txt[:-1] if case.get("map_cut_newline") and case["bad_map_line"] and case["bad_map_line"][0] == c else C.text_ending(case, "map" + c, txt))
     # reference panel + sample info
     samples, info = [], []
     for p in ["CEU", "YRI", "AMR", "EAS"]:
